@@ -29,6 +29,19 @@ def check(run):
         if len(run.samples) < 2:
             run.sample({"project": c["project"], "options": c["options"], "sched_prefix": c["sched"][:20],
                         "outcome": r.get("outcome"), "graph": r.get("graph")})
+    # user code raising a BaseException (sys.exit()): the run must still terminate (F15)
+    base = engine.gen_cases(run, 25 if run.tier == "quick" else 400,
+                            profile={"raise_kinds": ["Base", "Base", "Exception"], "p_fail": 0.3, "p_raise_in_fail": 0.8},
+                            threads=(1, 2, 3), prefix="b")
+    bres = engine.cosim(run, base, layers=(1, 2))
+    for c in base:
+        r = bres.get(c["id"]) or {"outcome": ["hang", "no result"]}
+        run.evaluations += 1
+        run.count("base_exception_cases")
+        oc = r.get("outcome") or ["?"]
+        if oc[0] in ("hang", "sched_abort"):
+            run.violation("run-does-not-terminate", "the run does not terminate when user code raises a BaseException: %s" % (oc[1][:200],),
+                          {"case": c, "outcome": oc})
     run.coverage["rule"] = ("seeded random projects (nested suites, empty suites, disabled tests/suites, depends_on, fixtures of 4 "
                             "scopes, hooks, scripts with failures of every kind, user threads) run by the real runner under a "
                             "deterministic scheduler with random/biased schedules and 1..4 (thorough: ..8) threads; "
